@@ -228,6 +228,12 @@ func (s *StatsCtx) handlePutStatsConfig(w http.ResponseWriter, r *http.Request) 
 
 // handleStatsReset is the handler for the POST /control/stats_reset HTTP API.
 func (s *StatsCtx) handleStatsReset(w http.ResponseWriter, r *http.Request) {
+	// clear closes, removes and reopens the database, and expects the
+	// configuration lock to be held, like setLimit does, so that two of them
+	// can't overlap and no unit flush runs in between.
+	s.confMu.Lock()
+	defer s.confMu.Unlock()
+
 	err := s.clear()
 	if err != nil {
 		aghhttp.ErrorAndLog(
